@@ -770,7 +770,10 @@ impl<'a> Gen<'a> {
     pub fn rule(&mut self, rng: &mut Rng, ruleset_idx: usize) -> Cmd {
         let natoms = 1 + rng.weighted(&[4, 4, 2, 1]);
         let (body, vars) = self.body(rng, natoms);
-        let build = self.cfg.term_building_rules && rng.chance(1, 3);
+        // new terms only from single-atom bodies: every match then creates at most one term, so
+        // the database grows at most geometrically with a small factor per iteration (a join
+        // body that builds terms can square the database in one iteration)
+        let build = self.cfg.term_building_rules && natoms == 1 && rng.chance(1, 2);
         let mut head = vec![];
         let nacts = 1 + rng.below(2);
         let mut safe = !build;
@@ -904,7 +907,7 @@ impl<'a> Gen<'a> {
         }
         match rng.below(4) {
             0 => Sched::Run(name, None),
-            1 => Sched::Repeat(1 + rng.below(3) as u32, vec![self.schedule(rng, depth - 1)]),
+            1 => Sched::Repeat(1 + rng.below(2) as u32, vec![self.schedule(rng, depth - 1)]),
             2 => {
                 if self.ruleset_safe.iter().all(|x| *x) {
                     Sched::Saturate(vec![self.schedule(rng, depth - 1)])
